@@ -142,13 +142,13 @@ proof {
     }
 }
 //@ hint 1 after `if self.must_skip(&path) {`
-proof { lemma_after_nothing(lst, n0, self.filter.files@, self.base, sk0, tv1); }
+proof { lemma_after_nothing(lst, n0, self.filter.files@, self.base, sk0, tv1); } // OBL:C14.visit_path.every_unignored_subdirectory_is_queued
 //@ hint? 2 after `self.skip(path);`
-proof { lemma_after_skip(lst, n0, d0, self.filter.files@, self.base, sk0, self.to_skip.s@, tv1, self.to_visit@); }
+proof { lemma_after_skip(lst, n0, d0, self.filter.files@, self.base, sk0, self.to_skip.s@, tv1, self.to_visit@); } // OBL:C14.visit_path.every_unignored_subdirectory_is_queued
 //@ hint? 3 after `self.skip(path);`
-proof { lemma_after_skip(lst, n0, d0, self.filter.files@, self.base, sk0, self.to_skip.s@, tv1, self.to_visit@); }
+proof { lemma_after_skip(lst, n0, d0, self.filter.files@, self.base, sk0, self.to_skip.s@, tv1, self.to_visit@); } // OBL:C14.visit_path.every_unignored_subdirectory_is_queued
 //@ hint after `self.to_visit.push(path);`
-proof { lemma_after_push(lst, n0, self.filter.files@, self.base, sk0, tv1); lemma_push_contains(tv1, path); }
+proof { lemma_after_push(lst, n0, self.filter.files@, self.base, sk0, tv1); lemma_push_contains(tv1, path); } // OBL:C14.visit_path.every_unignored_subdirectory_is_queued
 //@ hint 1 after `} else {`
-proof { lemma_after_nothing(lst, n0, self.filter.files@, self.base, sk0, tv1); }
+proof { lemma_after_nothing(lst, n0, self.filter.files@, self.base, sk0, tv1); } // OBL:C14.visit_path.every_unignored_subdirectory_is_queued
 //@ end
